@@ -322,7 +322,13 @@ def run_difftest(ctx, script, n, component, args=None):
     p = subprocess.run(['/venv/bin/python', path] + argv, capture_output=True, text=True, timeout=3600, env=env)
     m = re.search(r'cases (\d+) mismatches (\d+)', p.stdout)
     if not m:
-        raise LeanError(f'difftest {script} produced no summary: {p.stdout[-500:]} {p.stderr[-1500:]}')
+        if 'lake' in p.stderr[-3000:] and 'error' in p.stderr[-3000:] and 'Traceback' not in p.stderr[-3000:]:
+            raise LeanError(f'difftest {script} produced no summary: {p.stdout[-500:]} {p.stderr[-1500:]}')
+        # the comparison itself broke down on what the code returned (shapes that do not fit, attributes that are gone ...): the
+        # correspondence no longer checks; the failing-input search goes on
+        ctx.count('difftest:' + script + ':crashed')
+        ctx.disagree(component, {"difftest_crashed": (p.stderr + p.stdout)[-1500:], "seed": seed, "n": n}, {"difftest": script, "seed": seed, "n": n})
+        return 0, 1
     cases, mism = int(m.group(1)), int(m.group(2))
     ctx.programs += cases; ctx.evaluations += cases
     for line in p.stdout.splitlines():
